@@ -325,7 +325,7 @@ def pngRows (nbytes bpp : Nat) : Nat → Bytes → Bytes → Except Err Bytes
 
 /-- `utils.apply_png_predictor` (the `pred` argument is unused by the code). -/
 def apply_png_predictor (colors columns bpc : Nat) (data : Bytes) : Except Err Bytes :=
-  if bpc != 8 && bpc != 1 then .error .pdfValue
+  if !PNG_BPC.contains bpc then .error .pdfValue           -- `bitspercomponent not in [8, 1]` (translated list)
   else
     pngRows (pngNbytes colors columns bpc) (pngBpp colors bpc) data.length
       (List.replicate (pngNbytes colors columns bpc) 0) data
@@ -346,9 +346,10 @@ def tiffRows (nbytes bpp : Nat) : Nat → Bytes → Except Err Bytes
       | .error e => .error e
 
 def apply_tiff_predictor (colors columns bpc : Nat) (data : Bytes) : Except Err Bytes :=
-  if bpc != 8 then .error .pdfValue
-  else if columns * colors == 0 then .error .valueError     -- range() arg 3 must not be zero
-  else tiffRows (columns * colors) colors data.length data
+  -- `TIFF_BPC`, `tiffBpp`, `tiffNbytes` are translated from utils.py
+  if bpc != TIFF_BPC then .error .pdfValue
+  else if tiffNbytes columns (tiffBpp colors bpc) == 0 then .error .valueError     -- range() arg 3 must not be zero
+  else tiffRows (tiffNbytes columns (tiffBpp colors bpc)) (tiffBpp colors bpc) data.length data
 
 /-! ## PDFStream.get_filters / decode -/
 
@@ -388,10 +389,14 @@ def applyPredictor (pr : Option Parms) (data : Bytes) : Except Err Bytes :=
     match p.predictor with
     | none => .ok data
     | some pred =>
-      if pred == 1 then .ok data
-      else if pred == 2 then apply_tiff_predictor (p.colors.getD 1) (p.columns.getD 1) (p.bpc.getD 8) data
-      else if pred ≥ 10 then apply_png_predictor (p.colors.getD 1) (p.columns.getD 1) (p.bpc.getD 8) data
-      else .error .pdfNotImplemented
+      -- `predKind` (the `pred == 1 / == 2 / >= 10 / else` chain) and the defaults are translated from pdftypes.py
+      match predKind pred with
+      | 0 => .ok data
+      | 1 => apply_tiff_predictor (p.colors.getD PRED_TIFF_DEFAULTS.1) (p.columns.getD PRED_TIFF_DEFAULTS.2.1)
+               (p.bpc.getD PRED_TIFF_DEFAULTS.2.2) data
+      | 2 => apply_png_predictor (p.colors.getD PRED_PNG_DEFAULTS.1) (p.columns.getD PRED_PNG_DEFAULTS.2.1)
+               (p.bpc.getD PRED_PNG_DEFAULTS.2.2) data
+      | _ => .error .pdfNotImplemented
 
 /-- One iteration of the `for f, params in filters` loop.  `inflate` stands for the Flate step
 (zlib, with the non-strict salvage path), supplied from outside. -/
